@@ -319,6 +319,8 @@ def widen(rng, spec, prob=0.12, n_range=(40, 120), p_range=(80, 320), p0=(1, 3, 
     never visited.  Mutates and returns `spec` (None passes through)."""
     if spec is None:
         return None
+    if spec.get("penalty") == "LogSumPenalty":
+        return spec      # its prox is a root search: a wide problem multiplies the cost of every epoch by hundreds
     if rng.random() < prob:
         spec.update(n=int(rng.integers(*n_range)), p=int(rng.integers(*p_range)), size="wide",
                     alpha_frac=float(rng.choice(list(fracs))))
